@@ -13,6 +13,11 @@ mod util;
 mod p3;
 mod gen;
 mod c01;
+mod c03;
+mod c07;
+mod c08;
+mod c19;
+mod codec;
 
 use harness::{drive, replay, RunArgs, Tier, TrackingAlloc};
 use std::path::{Path, PathBuf};
@@ -42,6 +47,9 @@ macro_rules! registry {
 
 registry! {
     "C01" => c01::C01,
+    "C03" => c03::C03,
+    "C07" => c07::C07,
+    "C08" => c08::C08,
 }
 
 fn parse_tier(s: &str) -> Tier {
@@ -103,7 +111,7 @@ fn confirm_crash(id: &str, file: &Path, per_try: Duration) -> bool {
     for _ in 0..3 {
         let (code, _out, timed_out) = spawn_wait(
             &["replay-raw", id, file.to_str().unwrap()],
-            &[],
+            &[("RUST_BACKTRACE", "0")],
             per_try,
         );
         if code.is_some() && !timed_out {
@@ -155,7 +163,7 @@ fn supervise(id: &str, tier: Tier) -> i32 {
             }
             let (code2, _out2, _to) = spawn_wait(
                 &["child", id, tier.name()],
-                &[("PV_TRACE", "1"), ("PV_NO_EVIDENCE", "1")],
+                &[("PV_TRACE", "1"), ("PV_NO_EVIDENCE", "1"), ("RUST_BACKTRACE", "0")],
                 budget,
             );
             if code2.is_some() {
